@@ -477,13 +477,13 @@ func (self *TextParser) ParseResponse() error {
 				return nil
 			}
 		case 5:
-			startBufIndex, endBufIndex := self.bufIndex, self.bufIndex
+			startBufIndex, endBufIndex := self.bufIndex, self.bufIndex-1
 			for ; self.bufIndex < self.bufLen; self.bufIndex++ {
 				if self.rbuf[self.bufIndex] == '\n' {
 					if self.argsType == 2 {
-						self.args[1] += string(self.rbuf[startBufIndex : endBufIndex+1])
+						self.args[1] = strings.TrimRight(self.args[1]+string(self.rbuf[startBufIndex:endBufIndex+1]), "\r")
 					} else {
-						self.args[0] += string(self.rbuf[startBufIndex : endBufIndex+1])
+						self.args[0] = strings.TrimRight(self.args[0]+string(self.rbuf[startBufIndex:endBufIndex+1]), "\r")
 					}
 					if self.bufIndex > 0 && self.rbuf[self.bufIndex-1] != '\r' {
 						return errors.New("Response parse msg error")
@@ -492,7 +492,7 @@ func (self *TextParser) ParseResponse() error {
 					self.bufIndex++
 					self.stage = 0
 					return nil
-				} else if self.rbuf[self.bufIndex] != '\r' {
+				} else {
 					endBufIndex = self.bufIndex
 				}
 			}
@@ -507,12 +507,12 @@ func (self *TextParser) ParseResponse() error {
 			startBufIndex, endBufIndex := self.bufIndex, self.bufIndex
 			for ; self.bufIndex < self.bufLen; self.bufIndex++ {
 				if self.rbuf[self.bufIndex] == ' ' {
-					self.args[0] += string(self.rbuf[startBufIndex : endBufIndex+1])
+					self.args[0] = strings.TrimRight(self.args[0]+string(self.rbuf[startBufIndex:endBufIndex]), "\r")
 					self.bufIndex++
 					self.stage = 5
 					break
 				} else if self.rbuf[self.bufIndex] == '\n' {
-					self.args[0] += string(self.rbuf[startBufIndex : endBufIndex+1])
+					self.args[0] = strings.TrimRight(self.args[0]+string(self.rbuf[startBufIndex:endBufIndex]), "\r")
 					if self.bufIndex > 0 && self.rbuf[self.bufIndex-1] != '\r' {
 						return errors.New("Response parse msg error")
 					}
@@ -520,13 +520,13 @@ func (self *TextParser) ParseResponse() error {
 					self.bufIndex++
 					self.stage = 0
 					return nil
-				} else if self.rbuf[self.bufIndex] != '\r' {
-					endBufIndex = self.bufIndex
+				} else {
+					endBufIndex = self.bufIndex + 1
 				}
 			}
 
 			if self.stage == 6 {
-				self.args[0] += string(self.rbuf[startBufIndex : endBufIndex+1])
+				self.args[0] += string(self.rbuf[startBufIndex:endBufIndex])
 				return nil
 			}
 		}
